@@ -21,11 +21,14 @@ Also here, written only from the RFCs (no paramiko code is called):
                                   every packet (RFC 4253 section 6, RFC 5647,
                                   OpenSSH PROTOCOL for -etm / -gcm).
 """
+import collections
 import errno
 import hashlib
 import hmac as _hmac
 import socket
 import struct
+import threading
+import time
 import types
 import zlib
 
@@ -189,6 +192,11 @@ class MemSock:
         self.hiccup = None
         self._hic_last = False
         self.hiccups = 0
+        self.plan = collections.deque()  # scripted write-side actions, one per send() call
+        self.calls = None  # write ledger (list) when enabled
+        self.chunk_limit = None
+        self.yield_s = None
+        self.observer = None  # callable -> number of senders currently inside send_message
         self.recv_timeouts_at = []  # stream offsets at which recv raised socket.timeout / EAGAIN
 
     def _maybe_hiccup(self, kind):
@@ -210,12 +218,43 @@ class MemSock:
         return None
 
     def send(self, data):
-        self._maybe_hiccup("send")
+        """One socket write.  `plan` (a deque, one action per call, consumed first) scripts the write side:
+        ("take", k) accepts k bytes (k < 0: all but -k, float: that fraction, None: everything),
+        ("timeout",) / ("eagain",) raise what a socket with a timeout set raises instead of writing.
+        `chunk_limit` caps the bytes taken per call and `yield_s` sleeps after a write so that another thread
+        can run.  With `calls` set to a list every call is entered in a ledger:
+        (thread id, bytes offered, bytes accepted | "timeout" | "eagain", senders in flight)."""
+        data = bytes(data)
+        act = self.plan.popleft() if self.plan else None
+        inflight = self.observer() if self.observer is not None else None
+        if act is not None and act[0] in ("timeout", "eagain"):
+            if self.calls is not None:
+                self.calls.append((threading.get_ident(), data, act[0], inflight))
+            if act[0] == "timeout":
+                raise socket.timeout("timed out")
+            raise socket.error(errno.EAGAIN, "Resource temporarily unavailable")
+        try:
+            self._maybe_hiccup("send")
+        except OSError as e:
+            if self.calls is not None:
+                self.calls.append((threading.get_ident(), data, "timeout" if isinstance(e, socket.timeout) else "eagain",
+                                   inflight))
+            raise
         n = len(data)
-        if self.accept is not None and n > 1:
+        if act is not None and act[0] == "take" and act[1] is not None and n > 1:
+            k = act[1]
+            k = int(n * k) if isinstance(k, float) else (n + k if k < 0 else k)
+            n = max(1, min(n, k))
+        elif self.accept is not None and n > 1:
             n = max(1, min(n, int(self.accept(n))))
+        if self.chunk_limit and n > self.chunk_limit:
+            n = self.chunk_limit
         self.wire += data[:n]
         self.sends += 1
+        if self.calls is not None:
+            self.calls.append((threading.get_ident(), data, n, inflight))
+        if self.yield_s is not None:
+            time.sleep(self.yield_s)
         return n
 
     def load(self, data, frag=None, cuts=None):
@@ -302,6 +341,90 @@ def make_bench_tap(recorder, side):
     return BenchTap
 
 
+def _history(events):
+    out = []
+    for e in events:
+        if not out or out[-1] != e:
+            out.append(e)
+    return "+".join(out) or "start"
+
+
+def judge_write_ledger(calls):
+    """Independent of any crypto: replay the ledger of socket writes.  The first buffer offered for a packet is the
+    packet P; every later offer must be exactly the not-yet-accepted rest of P; a packet is finished when all of P was
+    accepted; no other thread may write in between.  Returns (packets, problems): packets = list of
+    dict(thread, data, events) and problems = list of (kind, after, detail) with kind in
+    {"skipped", "repeated", "different", "interleaved", "unfinished"} and after = what the previous call did
+    ("partial" | "timeout" | "eagain" | "start")."""
+    packets, problems = [], []
+    cur = None
+    for tid, offered, res, inflight in calls:
+        if cur is None:
+            cur = dict(thread=tid, data=offered, acc=0, events=[], last="start", inflight=0)
+            packets.append(cur)
+        elif tid != cur["thread"]:
+            problems.append(("interleaved", cur["last"], "another thread wrote %d bytes before the packet was complete"
+                             % (res if isinstance(res, int) else 0)))
+            cur = dict(thread=tid, data=offered, acc=0, events=[], last="start", inflight=0)
+            packets.append(cur)
+        P, acc = cur["data"], cur["acc"]
+        if offered != P[acc:]:
+            kind = "different"
+            for d in range(1, acc + 1):
+                if offered == P[acc - d:]:
+                    kind = "repeated"
+                    break
+            else:
+                for d in range(1, len(P) - acc + 1):
+                    if offered == P[acc + d:]:
+                        kind = "skipped"
+                        break
+            problems.append((kind, _history(cur["events"]), "offered %d bytes where the %d not yet accepted were due" % (len(offered), len(P) - acc)))
+            # resynchronise on what the code believes is left, so one defect is reported once per packet
+            cur["data"] = P[:acc] + offered
+            P = cur["data"]
+        if inflight is not None and inflight >= 2:
+            cur["inflight"] = max(cur["inflight"], inflight)
+        if isinstance(res, int):
+            cur["acc"] += res
+            cur["events"].append("full" if cur["acc"] >= len(P) and not cur["events"] else
+                                 ("partial" if cur["acc"] < len(P) else "rest"))
+            cur["last"] = "partial" if cur["acc"] < len(P) else "done"
+            if cur["acc"] >= len(P):
+                cur = None
+        else:
+            cur["events"].append(res)
+            cur["last"] = res
+    if cur is not None:
+        problems.append(("unfinished", cur["last"], "stream ends inside a packet"))
+    return packets, problems
+
+
+def make_concurrent_tap(recorder, side):
+    """BenchTap whose send_message takes NO lock of its own (vf.tap's outer lock would serialise the senders and
+    hide a missing write lock in the code under test); it only counts the senders currently inside."""
+    Base = make_bench_tap(recorder, side)
+    from paramiko.packet import Packetizer as _P
+
+    class ConcTap(Base):
+        def __init__(self, sock):
+            super().__init__(sock)
+            self.inflight = 0
+            self._cl = threading.Lock()
+
+        def send_message(self, data):
+            with self._cl:
+                self.inflight += 1
+            try:
+                _P.send_message(self, data)  # the real method, straight
+            finally:
+                with self._cl:
+                    self.inflight -= 1
+
+    ConcTap.__name__ = "ConcTap_" + side
+    return ConcTap
+
+
 def instrument(transport, log, side):
     """Per-instance wrappers on `_compute_key`, `_get_engine` and the two
     `_activate_*` methods (begin/end markers).  Every call is appended to `log`
@@ -359,6 +482,43 @@ def rand_secret(rng):
     elif kind < 0.55 and bits > 16:
         k >>= rng.randint(1, 15)  # leading zero bits
     return max(1, k)
+
+
+# --------------------------------------------------------------------------
+# per-direction negotiation on real sessions
+# --------------------------------------------------------------------------
+def rewrite_kexinit(raw, c2s_cipher, s2c_cipher, c2s_mac, s2c_mac):
+    """KEXINIT payload (type byte, cookie, 10 name-lists, bool, uint32) with the four per-direction
+    encryption / MAC name-lists replaced by single names (RFC 4253 7.1 field order)."""
+    if raw[:1] != b"\x14":
+        raise ValueError("not a KEXINIT")
+    pos = 17
+    lists = []
+    for _ in range(10):
+        (n,) = struct.unpack(">I", raw[pos:pos + 4])
+        lists.append(raw[pos + 4:pos + 4 + n])
+        pos += 4 + n
+    tail = raw[pos:]
+    lists[2], lists[3] = c2s_cipher.encode(), s2c_cipher.encode()
+    lists[4], lists[5] = c2s_mac.encode(), s2c_mac.encode()
+    return raw[:17] + b"".join(struct.pack(">I", len(x)) + x for x in lists) + tail
+
+
+class AsymTransport(paramiko.Transport):
+    """A real Transport that advertises ONE cipher and ONE MAC per direction (client-to-server /
+    server-to-client) in every KEXINIT it sends -- something paramiko's own options cannot express, but any
+    peer may do.  Only the outgoing KEXINIT (and the copy kept for the exchange hash) is rewritten; used on
+    both peers, so both hash the same I_C / I_S and negotiate `asym` exactly."""
+
+    asym = None  # dict(c2s_cipher=, s2c_cipher=, c2s_mac=, s2c_mac=)
+
+    def _send_message(self, data):
+        raw = data.asbytes()
+        if self.asym and raw[:1] == b"\x14":
+            new = rewrite_kexinit(raw, **self.asym)
+            self.local_kex_init = self._latest_kex_init = new
+            data = Message(new)
+        return super()._send_message(data)
 
 
 # --------------------------------------------------------------------------
@@ -496,14 +656,14 @@ class Bench:
     own)."""
 
     def __init__(self, rng, cipher, mac, comp="none", sender_role="client", strict=False,
-                 hash_name="sha256", accept=None, seq0=0, sid=None, hiccup=None, rev=None):
+                 hash_name="sha256", accept=None, seq0=0, sid=None, hiccup=None, rev=None, tap_factory=None):
         self.rng = rng
         self.rec = vtap.Recorder()
         self.klog = []
         self.sock = MemSock()
         self.sock.accept = accept
         self.sock.hiccup = hiccup
-        self.tap_cls = make_bench_tap(self.rec, "tx")
+        self.tap_cls = (tap_factory or make_bench_tap)(self.rec, "tx")
         self.t = paramiko.Transport(self.sock, packetizer_class=self.tap_cls)
         t = self.t
         t.server_mode = sender_role == "server"
